@@ -87,6 +87,7 @@ type Callee struct {
 	NFixed   int
 	Variadic bool
 	PK       byte // parameter kind of a Go function: 'I' int64, 'A' interface{}
+	Ptr0     bool // the first parameter of the Go function is *int64
 }
 
 func (c *Callee) literal() string {
@@ -209,6 +210,15 @@ func (r *renderer) sub(n *Node) string {
 	return "(" + r.src(n) + ")"
 }
 
+func (r *renderer) addPre(p string) {
+	for _, q := range r.pre {
+		if q == p {
+			return
+		}
+	}
+	r.pre = append(r.pre, p)
+}
+
 // cont renders the container operand of an index/slice/member expression:
 // postfix chains need no parentheses (and an assignment target must not have them).
 func (r *renderer) cont(n *Node) string {
@@ -296,6 +306,13 @@ func (r *renderer) src(n *Node) string {
 		return "len(" + r.sub(n.Kids[0]) + ")"
 	case "unary":
 		return n.Op + r.sub(n.Kids[0])
+	case "addr":
+		// &x[i], &x.k, &ident, &call(...): no parentheses, the operand of & is
+		// the index/member expression itself
+		if n.Pre != "" {
+			r.addPre(n.Pre)
+		}
+		return "&" + r.cont(n.Kids[0])
 	case "retcall":
 		return "func() { return " + r.list(n.Kids) + " }()"
 	case "call":
@@ -750,6 +767,18 @@ func (n *Node) eval(r *ref) (aval, bool) {
 		}
 		return unknownVal, true
 
+	case "addr":
+		// the address of a value that holds an int; whether the pointee is an int
+		// is all the reference needs (for a *int64 parameter)
+		v, ok := n.Kids[0].eval(r)
+		if !ok {
+			return unknownVal, false
+		}
+		if v.K == 'I' {
+			return aval{K: 'P'}, true
+		}
+		return unknownVal, true
+
 	case "retcall":
 		var last aval
 		for _, k := range n.Kids {
@@ -949,11 +978,16 @@ func (n *Node) evalCall(r *ref) (aval, bool) {
 			break
 		}
 		vals = append(vals, v)
-		if !c.Script && c.PK == 'I' && !(n.Spread && i == nargs-1) {
+		if !c.Script && c.PK == 'I' && c.Ptr0 && i == 0 {
+			// *int64 parameter: the address of an int converts (through a fresh pointer)
+			if v.K != 'P' {
+				r.unknownStatus()
+			}
+		} else if !c.Script && c.PK == 'I' && !(n.Spread && i == nargs-1) {
 			// converting the operand for a Go parameter
 			switch v.K {
 			case 'I':
-			case 'S', 'B', 'L', 'M', 'F':
+			case 'S', 'B', 'L', 'M', 'F', 'P':
 				convFailed = true
 			default:
 				r.unknownStatus()
